@@ -212,7 +212,8 @@ def gen_path(rng, n, root=T, allow_star=True):
     while len(items) < n:
         r = rng.random()
         if r < 0.5:
-            k, v = gen_literal(rng, 1, hashable=True)
+            # (a tenth of the plain parts are lists / dicts: legal parts - they fail as keys, index like any other part)
+            k, v = gen_literal(rng, 1, hashable=rng.random() >= 0.1)
             if k == 'builtin':
                 k, v = 'str', 'blt'
             parts.append(v); items.append(('P', v)); kinds.append('P:' + k)
@@ -352,9 +353,15 @@ def eval_signature(x):
 
 def check_roundtrip(col, x, desc, key):
     """eval(repr) and pickle for one T expression or Path"""
-    rx = repr(x)
     feat = features(x)
     kind = 'Path' if isinstance(x, Path) else 'T'
+    o = call(repr, x)
+    if not o.ok:
+        col.case(('rt', kind) + key, True)
+        col.violation('C18/repr-raises:%s:%s' % (kind, feat), 'repr() of %s (steps %s) raised %r' % (desc, short(ops_of(x)[1:]), o.exc),
+                      {'desc': desc, 'steps': short(ops_of(x)[1:])})
+        return
+    rx = o.value
     nontrivial = len(ops_of(x)) >= 5 or feat != 'plain' or any(
         type(a) in (tuple, slice, list, dict) or isinstance(a, type(T)) for a in ops_of(x)[2::2])
     col.case(('rt', kind) + key, nontrivial)
@@ -373,7 +380,7 @@ def check_roundtrip(col, x, desc, key):
             col.violation('C18/repr-eval-type:%s:%s' % (kind, feat),
                           'eval(repr) of %s gives %s' % (rx, type(y).__name__), {'repr': rx})
             return
-        ry = repr(y)
+        ry = short(y, 100000)
         if ry != rx:
             col.violation('C18/repr-not-stable:%s:%s' % (kind, feat),
                           'repr(eval(repr(x))) = %r != repr(x) = %r' % (ry, rx), {'repr': rx, 'repr2': ry})
@@ -427,7 +434,7 @@ def items_equal(got, want):
 
 def check_sequence_laws(col, p, kinds, steps, rng, full):
     n = len(steps)
-    rp = repr(p)
+    rp = short(p)          # (report.short: a raising repr is reported by check_roundtrip, it must not stop this law)
     key = ('seq', n, kinds[:3])
     col.case(key, n >= 2)
     if col.want_sample('sequence'):
@@ -502,7 +509,7 @@ def check_sequence_laws(col, p, kinds, steps, rng, full):
 
 
 def check_concat(col, p, psteps, q, qsteps):
-    rp, rq = repr(p), repr(q)
+    rp, rq = short(p), short(q)
     col.case(('concat', len(psteps), len(qsteps)), len(psteps) + len(qsteps) >= 2)
     wit = {'p': rp, 'q': rq}
     o = call(lambda: Path(p, q))
